@@ -118,7 +118,8 @@ type Runner struct {
 	// bookkeeping of the oracles, from the recorded calls (not from the model):
 	CachedUnder map[string]map[string]bool // root -> chunks stored by a request-mode put under that file context
 	CtxPins     map[string]map[string]int  // root -> chunk -> pins made minus unpins made under that file context
-	Inflated    map[string]bool            // root -> an unpin under its context hit a chunk with no pin made under it
+	Inflated    map[string]bool            // root -> its gc counter may legitimately exceed "cached minus context-pinned": an unpin or a removal
+	//                                         happened under its context (unpin re-adds; removals leave the share of chunks other files keep)
 
 	prev     localstore.VerifDump
 	prevCI   string
@@ -433,6 +434,9 @@ func (r *Runner) prune(d localstore.VerifDump) {
 
 // track updates the per-context bookkeeping from one recorded call.
 func (r *Runner) track(c Call) {
+	if c.Root != nil && c.K == "set" && (storage.ModeSet(c.Mode) == storage.ModeSetUnpin || storage.ModeSet(c.Mode) == storage.ModeSetRemove) {
+		r.Inflated[string(c.Root)] = true
+	}
 	if c.Err != 0 || c.Root == nil {
 		return
 	}
@@ -668,7 +672,9 @@ func (r *Runner) Exec(op Op, inner bool) {
 		// the order in which the closure went through the pyramid: distinct addresses of the
 		// Set(ModeSetRemove) calls; the last call is the removal of the root itself
 		var order [][]byte
+		r.Inflated[f.Root.ByteString()] = true
 		for i, c := range calls {
+			r.track(c)
 			if c.K != "set" || c.Mode != int(storage.ModeSetRemove) || len(c.Addrs) != 1 {
 				order = append(order, []byte("unexpected call"))
 				continue
